@@ -104,7 +104,7 @@ def _single(wl, ctx, m, w):
 def winner_model(wl, ctx, fail):
     """Returns ('error', None) | ('nan', None) | ('ok', (m, w, chi, single_outcome), tie)"""
     best = None
-    tie = False
+    tied = []
     for m, w in wl["combos"]:
         if f"{m}/_{w}_weight" in fail:
             continue
@@ -116,12 +116,14 @@ def winner_model(wl, ctx, fail):
             return ("nan", None, False)
         if best is None or chi < best[2]:
             best = (m, w, chi, o)
-            tie = False
+            tied = [best]
         elif chi == best[2]:
-            tie = True
+            tied.append((m, w, chi, o))
     if best is None:
         return ("error", None, False)
-    return ("ok", best, tie)
+    # exact ties: which of the tied combinations is reported is not this property's business (the order in
+    # which 'auto' enumerates methods and weights is undocumented; C17 checks that the choice is stable)
+    return ("ok", best, tied if len(tied) > 1 else False)
 
 
 def check_invariants(wl, result, circuit_before):
@@ -269,6 +271,10 @@ def evaluate(wl, cfg, dec, ctx):
                 add("winner-model", f"combination {m}/{w} succeeds alone (pseudo chi-squared {chi!r}) but the multi-combination call raised {out.exc_class}: {out.exc_msg}")
             else:
                 res = out.result
+                for cand in (tie or []):
+                    if (res.method, res.weight) == (cand[0], cand[1]):
+                        m, w, chi, single = cand
+                        break
                 if (res.method, res.weight) != (m, w):
                     add("winner-model", f"returned {res.method}/{res.weight} (pseudo chi-squared {float(res.pseudo_chisqr)!r}) but the smallest among the non-failing combinations is {m}/{w} ({chi!r}); failing set {sorted(fail)}",
                         expected={"method": m, "weight": w, "pseudo_chisqr": chi})
